@@ -4,8 +4,8 @@ import NaijaVerif.Gen.Builtins
 /-
 Model of the static analyses that build the optimisation plan (`src/analysis/{cfg,reachability,
 summary,liveness,diagnostics,opt,effects}.rs`, `classify_expr` / `emit_analysis_warnings` in
-`src/resolver.rs`) as they are after the fixes D-03a … D-03d (`/verif/proposed-fixes/D-03*.diff`,
-committed to /repo as four `fix:` commits).
+`src/resolver.rs`) as they are after the fixes D-03a … D-03f (`/verif/proposed-fixes/D-03*.diff`,
+committed to /repo as `fix:` commits).
 
 The Rust code lowers every function body to a side CFG and runs worklist / bit-set dataflow on it.
 The model is *structural*: it walks the annotated AST (statement ids `sid`, bindings) with the
@@ -151,11 +151,19 @@ mutual
     | e :: es => (classify capt e).join (classifyList capt es)
 end
 
+/-- `Resolver::condition_class` (fix D-03f): evaluating the condition of an `if` / `jasi` and then
+the run-time test that its value is a boolean or null (`Type mismatch` otherwise); only a type that
+follows from the condition's own literals rules the failure out. -/
+def condClass (capt : Nat → Bool) (c : Expr) : ExprClass :=
+  match literalTy c with
+  | some .bool | some .null => classify capt c
+  | _ => (classify capt c).join .pureMayTrap
+
 /-- The class `check_stmt` records for a statement (before callee summaries are joined). -/
 def stmtClass (capt : Nat → Bool) : Stmt → ExprClass
   | .assign _ _ e _ _ _ | .assignExisting _ _ e _ _ _ | .expr e _ _ => classify capt e
   | .assignIndex _ _ _ _ | .fnDef _ _ _ _ _ _ _ => .impure
-  | .ifS c _ _ _ _ | .loop c _ _ _ => classify capt c
+  | .ifS c _ _ _ _ | .loop c _ _ _ => condClass capt c
   | .ret (some e) _ _ => classify capt e
   | .ret none _ _ | .brk _ _ | .cont _ _ | .block _ _ _ => .pureNoTrap
 
